@@ -384,7 +384,7 @@ def dispatch(ctx):
           and astq.is_name(sb[0].value.func.value, fc)
           and len(sb[0].value.args) == 1 and astq.is_name(sb[0].value.args[0], arg) and not sb[0].value.keywords)
     ctx.check(ok, R, f, sb[0], "a string is used as the alias with default arguments: %s.from_alias(%s)" % (fc, arg),
-              "the str branch is not exactly `return %s.from_alias(%s)`" % (fc, arg))
+              "the str branch is not exactly `return %s.from_alias(%s)`" % (fc, arg), structural=True)
     # (iii) mutations only on fresh copies
     n_mut = 0
     for c in astq.func_calls(f):
